@@ -38,6 +38,20 @@ static void op_c19_sync(Exec& x, const Json& op, int)
 	for (auto& t : x.sb.parity_tops()) { Bytes b; x.sb.get_file(t + "/parity", b); parity_before[t] = b; }
 	bool nocopy = std::find(spec.opts.begin(), spec.opts.end(), std::string("-N")) != spec.opts.end();
 	bool prehash = std::find(spec.opts.begin(), spec.opts.end(), std::string("-h")) != spec.opts.end();
+	// decoys an earlier (refused or partial) sync already recorded with inherited, never verified hashes: on a retry the scan
+	// no longer announces them as copies, the danger is the same
+	std::set<std::string> pending_decoys;
+	{
+		std::set<std::string> known;
+		if (x.vars.count("decoys")) for (auto& d : x.vars["decoys"].a) known.insert(d.s);
+		std::vector<LoadedContent> cs0 = load_contents(x.sb);
+		const LoadedContent* l0 = first_good(cs0);
+		if (l0) for (auto& f : l0->c.files) {
+			const DiskCfg* dk = x.sb.disk(l0->c.maps[f.map_idx].name);
+			if (!dk || !known.count(dk->top + "/" + f.sub)) continue;
+			for (auto& b : f.blocks) if (b.state == BS_REP) { pending_decoys.insert(dk->top + "/" + f.sub); break; }
+		}
+	}
 	CmdResult r = x.cmd(spec); // always-on: parity oracle + reference hash of every recorded block
 	if (r.harness_error) { x.harness("c19 sync"); return; }
 	++x.out.cases;
@@ -53,12 +67,16 @@ static void op_c19_sync(Exec& x, const Json& op, int)
 	std::string cl = "sync";
 	for (auto& o : spec.opts) cl += " " + o;
 	cl += strf(" (exit %d)", r.exit_code);
+	if (!pending_decoys.empty()) x.probe("c19.retry_with_recorded_decoy", pending_decoys.size());
+	std::set<std::string> fresh = taken;
+	// (--force-nocopy discards hashes inherited by earlier runs when it loads the content: the file is then hashed as new data)
+	if (!nocopy) for (auto& d : pending_decoys) taken.insert(d);
 	if (!taken.empty()) {
 		++x.out.nontrivial_cases;
 		x.out.nontrivial = true;
 		x.out.case_hashes.insert(mix64(x.plan->seed, x.out.cases));
 		x.probe("c19.decoy_taken_for_copy", taken.size());
-		if (nocopy) x.violation("C19", "nocopy-ignored", cl + ": --force-nocopy given but the scan inherited hashes for " + *taken.begin());
+		if (nocopy && !fresh.empty()) x.violation("C19", "nocopy-ignored", cl + ": --force-nocopy given but the scan inherited hashes for " + *fresh.begin());
 		// the data is hashed before the stripe is recorded: a mismatch is an error and a failing status
 		bool partial = false;
 		for (auto& o : spec.opts) if (o == "-B" || o == "-S") partial = true;
@@ -143,6 +161,9 @@ static RunPlan gen_decoy(uint64_t seed, int tier)
 			default: break;
 			}
 			p.ops.push_back(Json::obj().set("k", "c19_sync").set("spec", gen_sched(rng, s).to_json()));
+			// the user retries the refused command
+			if (std::find(s.opts.begin(), s.opts.end(), std::string("-h")) != s.opts.end() && rng.chance(1, 2))
+				p.ops.push_back(Json::obj().set("k", "c19_sync").set("spec", gen_sched(rng, s).to_json()));
 		}
 	}
 	if (scenario >= 1) {
